@@ -39,6 +39,19 @@ Theorem C12_reverse : forall s, reverse_impl s = Ok (encode (rev (decode s))).
 Proof. exact reverse_impl_is_spec. Qed.
 Print Assumptions C12_reverse.
 
+(* Reversal only reorders: decoding the result gives the reversed rune list (any input). *)
+Theorem C12_reverse_runes : forall s out, reverse_impl s = Ok out -> decode out = rev (decode s).
+Proof. exact reverse_runes. Qed.
+Print Assumptions C12_reverse_runes.
+
+(* The UTF-8 model is a codec: encoding Unicode scalar values and decoding gives them back, and the decoder
+   only ever yields scalar values (U+FFFD for every malformed byte). *)
+Theorem C12_utf8_roundtrip :
+  (forall rs, forallb valid_rune rs = true -> decode (encode rs) = rs) /\
+  (forall s, forallb valid_rune (decode s) = true).
+Proof. split; [exact decode_encode|exact decode_valid]. Qed.
+Print Assumptions C12_utf8_roundtrip.
+
 (* substr never panics, and for non-negative arguments returns the bytes from offset i (at most n of them).
    The hypotheses say the arguments are int64 values and the string length fits int64 (true of every Go string). *)
 Theorem C12_substr3 : forall s i n, blen s <= max_int64 -> in_int64 i -> in_int64 n ->
